@@ -812,6 +812,7 @@ package twig
 //@ apply tokwrites (*ZeroAllocTokenizer).tokenizeTemplatePath
 //@ func (*ZeroAllocTokenizer).GetStringConstant props: C05
 //@   modifies t.tempStrings, elems(t.tempStrings)
+//@   ensures ret == s
 //@   ensures arrRef(t.tempStrings) == old(arrRef(t.tempStrings)) || freshArr(t.tempStrings)
 //@ func countNewlines props: C05
 //@   pure
@@ -906,6 +907,7 @@ package twig
 // lowering ASCII letters keeps the length (positions found in the result are positions in s)
 //@ func lowerASCII props: C05
 //@   pure
+//@   function
 //@   ensures len(ret) == len(s)
 //@   loop 1 invariant 0 <= i
 //@   loop 2 invariant len(b) == len(s)
@@ -971,3 +973,14 @@ package twig
 //@   ensures err == nil ==> ret0[len(ret0) - 1].Value == ""
 //@ apply tokresult (*ZeroAllocTokenizer).TokenizeOptimized
 //@ apply tokresult (*ZeroAllocTokenizer).TokenizeHtmlPreserving
+
+// ---------------------------------------------------------------- from ... import (C12)
+// the names a `from` tag imports are the list items as written (trimmed), the alias is what follows
+// " as ": macro names reach the parser with their spelling
+//@ define fromItem() nth(macro, 2)
+//@ func (*ZeroAllocTokenizer).processBlockTag props: C12
+//@   atcall[C12] strings.TrimSpace#14 a0 == macros[rangeindex + 1]
+//@   atcall[C12] strings.Index#6 a0 == fn_lowerASCII_0(fromItem()) && a1 == " as "
+//@   atcall[C12] (*ZeroAllocTokenizer).AddToken#19 a1 == TOKEN_NAME && a2 == fn_TrimSpace_0(substr(fromItem(), 0, nth(asPos, 1)))
+//@   atcall[C12] (*ZeroAllocTokenizer).AddToken#21 a1 == TOKEN_NAME && a2 == fn_TrimSpace_0(substr(fromItem(), nth(asPos, 1) + 4, len(fromItem())))
+//@   atcall[C12] (*ZeroAllocTokenizer).AddToken#22 a1 == TOKEN_NAME && a2 == fromItem()
